@@ -262,6 +262,8 @@ impl SparseBinaryMatrix {
                    ' assert(height as int * rww(trailing_dense_column_hint as int) <= 16777216 * 1024) by (nonlinear_arith) requires 0 <= height as int <= 16777216, 0 <= rww(trailing_dense_column_hint as int) <= 1024; }'
                    ' else { assert(rww(0) == 0) by { lemma_ceil_div_exact(0, 64); } assert(height as int * 0 == 0) by (nonlinear_arith); } }')],
          append=None)
+    u.fn('src/sparse_matrix.rs', 'height', impl=IMPLT, ret='r', ensures=['r == self.height'])
+    u.fn('src/sparse_matrix.rs', 'width', impl=IMPLT, ret='r', ensures=['r == self.width'])
     u.fn('src/sparse_matrix.rs', 'get', impl=IMPLT, ret='r',
          requires=['sp_wf(*self)', 'sp_in(*self, i as int, j as int)'],
          ensures=['r.value == (if sp_cell(*self, i as int, j as int) { 1u8 } else { 0u8 })'],
